@@ -859,4 +859,72 @@ theorem fixViCursor_not_pastEnd (a : App) (hc : a.buf.cur ≤ a.buf.text.length)
     simp [hn, hpe.1, hpe.2]
 
 
+/-- handler ops that act through the API (no by-passing write) -/
+def HOp.isApi : HOp → Bool
+  | .raw _ => false
+  | _ => true
+
+theorem hstep_inv (a : App) (op : HOp) (hapi : op.isApi = true) (h : Inv a.buf)
+    (ho : (hstep a op).2 ≠ .indexError) : Inv (hstep a op).1.buf := by
+  cases op with
+  | buf o =>
+    simp only [hstep] at ho ⊢
+    exact step_inv a.buf o h ho
+  | raw r => simp [HOp.isApi] at hapi
+  | setMode m => exact h
+  | setOp p g => exact h
+  | setDigraph w s => exact h
+  | setTempNav t => exact h
+  | setArg g => exact h
+  | viReset => exact h
+
+theorem hrun_inv : ∀ (prog : List HOp) (a : App), (∀ op ∈ prog, op.isApi = true) → Inv a.buf →
+    (hrun a prog).2 ≠ .indexError → Inv (hrun a prog).1.buf
+  | [], a, _, h, _ => h
+  | op :: ops, a, hapi, h, ho => by
+    unfold hrun at *
+    have hs := hstep_inv a op (hapi op List.mem_cons_self) h
+    revert hs ho
+    generalize hstep a op = r
+    obtain ⟨a1, o⟩ := r
+    intro ho hs
+    cases o <;> simp only [] at ho ⊢
+    · exact hrun_inv ops a1 (fun o ho' => hapi o (List.mem_cons_of_mem _ ho')) (hs (by simp)) ho
+    · exact hs (by simp)
+    · exact hs (by simp)
+    · exact absurd rfl ho
+
+theorem fixViCursor_inv (a : App) (h : Inv a.buf) : Inv (fixViCursor a).buf := by
+  unfold fixViCursor
+  split
+  · exact moveCursor_inv _ _ h
+  · exact h
+
+theorem leaveTempNav_buf (a : App) : (leaveTempNav a).buf = a.buf := by
+  unfold leaveTempNav
+  split
+  · split <;> rfl
+  · rfl
+
+/-- leaving the temporary navigation mode can only switch the navigation filter off -/
+theorem viNav_of_leaveTempNav (a : App) (h : viNavigationMode (leaveTempNav a) = true) :
+    viNavigationMode a = true := by
+  unfold leaveTempNav at h
+  split at h
+  · split at h
+    · unfold viNavigationMode at *
+      simp only [] at h
+      split at h
+      · simp at h
+      · rename_i hc
+        rw [if_neg hc]
+        simp only [Bool.or_eq_true] at h ⊢
+        rcases h with (h | h) | h
+        · exact Or.inl (Or.inl h)
+        · simp at h
+        · exact Or.inr h
+    · exact h
+  · exact h
+
+
 end Ptk.C05
